@@ -34,6 +34,9 @@ class ConstantExpressionEvaluator:
                 value = self.context.sizeof(expr.sizeof_typ)
             else:
                 value = self.context.sizeof(expr.sizeof_typ.typ)
+        elif isinstance(expr, expressions.BuiltInOffsetOf):
+            field = expr.query_typ.get_field(expr.member)
+            value = self.context.offsetof(expr.query_typ, field)
         elif isinstance(expr, int):
             value = expr
         else:  # pragma: no cover
